@@ -78,6 +78,9 @@ def run(ctx):
         impl.extend(part)
     exprs = []
     for c, r in zip(cases, impl):
+        if "crash" in r:
+            exprs.extend(["0%Z"] * 5)
+            continue
         F, T, asc = c["F"], c["T"], c["ascending"]
         df, dt, f1 = float.fromhex(c["df"]), float.fromhex(c["dt"]), float.fromhex(c["fch1"])
         fmin = "(fmin_f %s %s %s %s)" % (C.gz(F), gf(df), gf(f1), C.gbool(asc))
@@ -95,6 +98,9 @@ def run(ctx):
         df, dt, f1 = float.fromhex(c["df"]), float.fromhex(c["dt"]), float.fromhex(c["fch1"])
         exact = c["route"] != "units_scaled"
         ctx.count(c, nontrivial=F > 1)
+        if "crash" in r:
+            ctx.impl_violation("frame-unusable", "building / probing a %dx%d frame (route %s, df %r, dt %r) raised %s" % (T, F, c["route"], df, dt, r["crash"]), c)
+            continue
         ctx.tally("route", c["route"]); ctx.tally("orientation", "asc" if asc else "desc"); ctx.tally("log2_fchans", int(math.log2(F)) if F else 0)
 
         def bad(key, msg):
